@@ -516,3 +516,51 @@ def no_thread_edge(p, q, lab):
     if subj is not None and 'std::thread' in (ff.nodes[subj].get('t') or '' ) + (strip_casts(ff, subj).get('t') or ''):
         return truth is null_when
     return False
+
+
+def subtree_through_locals(f, idx, depth=0):
+    """node indexes of an expression, following once-initialised locals to their initialisers"""
+    out = []
+    for j in f.subtree(idx):
+        out.append(j)
+        n = f.nodes[j]
+        if n['k'] == 'ref' and n.get('sk') == 'local' and depth < 3:
+            for m in f.nodes:
+                if m['k'] == 'declstmt':
+                    for d in m['decls']:
+                        if d['id'] == n['id'] and d.get('init') is not None and d['init'] >= 0:
+                            out += subtree_through_locals(f, d['init'], depth + 1)
+    return out
+
+
+def pointer_pins(f, path_pred, nonnull, ctx=None):
+    """pins (node idx -> bool) that fix "this pointer is non-null" for every expression of f whose access path satisfies
+    path_pred: three-valued evaluation then decides `p`, `!p`, `p == nullptr`, `p != nullptr`, `p.operator bool()` alike"""
+    pins = {}
+    for n in f.nodes:
+        if n['k'] in ('member', 'ref') and path_pred(access_path(f, n['i'], ctx)):
+            pins[n['i']] = nonnull
+    return pins
+
+
+def sign_pins(f, var_id, negative):
+    """pins for the comparisons of a variable with zero in the scenario "the value is negative" / "the value is not negative"
+    (in the latter, tests that separate 0 from positive values stay unknown)"""
+    pins = {}
+    for n in f.nodes:
+        c = comparison(f, n['i'])
+        if not c:
+            continue
+        op, l, r = c
+        ln, rn = strip_casts(f, l), strip_casts(f, r)
+        if rn.get('id') == var_id and ln['k'] == 'lit':
+            op, ln, rn = FLIP[op], rn, ln
+        if ln.get('id') != var_id or rn['k'] != 'lit' or not (rn.get('v') == 0 or rn.get('fv') == 0.0):
+            continue
+        if negative:
+            val = {'<': True, '<=': True, '>': False, '>=': False, '==': False, '!=': True}.get(op)
+        else:
+            val = {'<': False, '>=': True}.get(op)
+        if val is not None:
+            pins[n['i']] = val
+    return pins
